@@ -131,6 +131,7 @@ def r14(run):
         for p in paths:
             npaths += 1
             flags, sent, stores, hostname = [], 0, [], []
+            ks_val = None
             cauth = []
             for n, lab in p.steps:
                 if n.kind != 'stmt' or lab == 'exc':
@@ -142,6 +143,9 @@ def r14(run):
                         flags.append(const(a.args[0]))
                     if a in cmds:
                         sent += 1
+                    if isinstance(a, ast.Assign) and assign_to(a, KS) is not None and not sent:
+                        kv = assign_to(a, KS)
+                        ks_val = const(kv) if const(kv) is not NOCONST else src(kv)
                     if isinstance(a, ast.Assign):
                         v = assign_to(a, 'onion._private_key')
                         if v is not None:
@@ -167,6 +171,9 @@ def r14(run):
                 want.add('NonAnonymous')
             last = [n for n, _ in p.steps if n.kind == 'stmt'][-1].ast
             if sent:
+                want_ks = 'onion.private_key' if k0 in ('bare', 'prefixed') else ('NEW:ED25519-V3' if version == 3 else 'NEW:BEST')
+                run.ob('R14.2', u, last, 'key specifier follows the requested key and version [%s]' % tag, ks_val == want_ks, slot='keyspec:%s:%d' % (k0, version),
+                       message='ADD_ONION key specifier is %s for %s (expected %s)' % (ks_val, tag, want_ks))
                 run.ob('R14.3', u, last, 'flags sent == requested options [%s]' % tag, set(flags) == want and len(flags) == len(set(flags)), slot='flags',
                        message='ADD_ONION flags %s for request %s (expected %s)' % (flags, tag, sorted(want)), path=p.describe(6))
                 run.ob('R14.1', u, last, 'exactly one ADD_ONION per creation', sent == 1, slot='one-command', message='%d ADD_ONION commands for %s' % (sent, tag))
